@@ -5,6 +5,7 @@ N2  `R.update(<comp>)` / `R.extend(<comp>)` / `R.update({k: v for ...})` as a st
                                                     ->  the loop that adds / appends / stores each element
 N3  a name bound once to a generator expression and consumed once as the iterable of another comprehension or `for`
                                                     ->  the generator expression is substituted for the name
+N23 `x = A if C else B` -> `if C: x = A else: x = B`
 N22 `f = True; while f: body; f = <test>` -> `while True: body; if not <test>: break`
 N21 `R |= {comp}` / `R += [comp]` / `R = set(<gen>)` / `R = [comp]` over a package walk (`*_iter(...)`) -> loop with add/append
 N4  `for x in (elt for y in it if c): body`          ->  `for y in it: if c: x = elt; body`
@@ -542,6 +543,13 @@ class Normalizer:
                 leaf = ast.Expr(value=ast.Call(func=ast.Attribute(value=ast.Name(id=s.targets[0].id, ctx=ast.Load()), attr='add' if kind == 'set' else 'append', ctx=ast.Load()),
                                                args=[comp.elt], keywords=[]))
                 return [_loc(init, s)] + _comp_to_loop(comp.generators, [_loc(leaf, s)], s)
+        # N23: `x = A if C else B` on a plain name -> `if C: x = A else: x = B`
+        if isinstance(s, ast.Assign) and len(s.targets) == 1 and isinstance(s.targets[0], ast.Name) and isinstance(s.value, ast.IfExp) \
+                and not any(isinstance(x, (ast.Yield, ast.YieldFrom, ast.NamedExpr)) for x in ast.walk(s.value)):
+            t_ = s.targets[0]
+            a1 = _loc(ast.Assign(targets=[ast.Name(id=t_.id, ctx=ast.Store())], value=s.value.body, type_comment=None), s)
+            a2 = _loc(ast.Assign(targets=[ast.Name(id=t_.id, ctx=ast.Store())], value=s.value.orelse, type_comment=None), s)
+            return [_loc(ast.If(test=s.value.test, body=[a1], orelse=[a2]), s)]
         # N4
         if isinstance(s, ast.For) and isinstance(s.iter, ast.GeneratorExp) and not s.orelse:
             g = s.iter
